@@ -147,6 +147,8 @@ class Sim:
         self.boost = None  # [SimThread, remaining decisions]
         self.sleep_interrupt = None
         self.burst_left = 0
+        self.p_gc = tuple(cfg.get("p_gc", (0, 1)))
+        self.in_gc = False
         self.stall_timeouts = 0
         self.stall_timeout_cap = cfg.get("stall_timeout_cap", 60)
 
@@ -464,6 +466,16 @@ class Sim:
         if self.aborting:
             raise SimAbort()
         me.nsteps += 1
+        if self.p_gc[0] and not self.in_gc and self.tape.chance(*self.p_gc):
+            # fault kind `gc`: a full garbage collection (and whatever
+            # finalisers it runs) lands in this thread at this yield point
+            self.in_gc = True
+            try:
+                self.count("gc")
+                import gc as _gc
+                _gc.collect()
+            finally:
+                self.in_gc = False
         self.note(op, detail, me=me)
         self._switch(me)
         if me.pending_exc is not None:
@@ -559,6 +571,10 @@ class Sim:
         global CURRENT
         if CURRENT is not None and not CURRENT.finished:
             raise RuntimeError("nested simulation")
+        if self.p_gc[0]:
+            # injected collections must only see this run's garbage
+            import gc as _gc
+            _gc.collect()
         CURRENT = self
         m = self.spawn("main", mainfn)
         self.cur = m
